@@ -242,6 +242,7 @@ func runC19(c *Ctx) {
 		}
 		return
 	}
+	runC19Symlinks(c)
 	r := c.Rng
 	nSeq, nMal, exLen := 260, 60, 2
 	if c.Tier == "thorough" {
@@ -298,4 +299,42 @@ func runC19(c *Ctx) {
 		}
 		execSftp(c, fmt.Sprintf("m%d", i), items)
 	}
+}
+
+// MkdirAll on names occupied by symbolic links (oracle only; the model has no links): planted
+// through the second, raw client.  "Directory creation through sftpfs produces exactly what the
+// server holds": a nil result means the server has a directory at that name.
+func runC19Symlinks(c *Ctx) {
+	w := newWorld()
+	defer w.close()
+	n := 0
+	plant := func(target, link string) bool {
+		if err := w.c2.Symlink(target, link); err != nil {
+			c.Count("symlink.unsupported")
+			return false
+		}
+		return true
+	}
+	w.c2.Mkdir("/real")
+	if !plant("/nowhere", "/dangling") || !plant("/real", "/tolink") {
+		c.Extra["symlinks"] = "the in-process server refused Symlink: scenario skipped"
+		return
+	}
+	plant("/loop", "/loop")
+	w.c2.Mkdir("/real/sub")
+	plant("/nowhere2", "/real/sub/dangling")
+	for _, p := range []string{"/dangling", "/tolink", "/loop", "/real/sub/dangling", "/dangling/below", "/tolink/new/deeper", "/fresh/a/b"} {
+		n++
+		c.Count("symlink.mkdirall")
+		err := w.fs.MkdirAll(p, 0o755)
+		fi, serr := w.c2.Stat(p)
+		isDir := serr == nil && fi.IsDir()
+		if err == nil && !isDir {
+			c.Oracle("FAIL sym%d mkdirall:ok-without-directory MkdirAll(%q) returned nil but the server has no directory there (Stat: %v)", n, p, serr)
+		}
+		if err != nil && isDir {
+			c.Count("symlink.mkdirall-error-but-directory")
+		}
+	}
+	c.Extra["symlinks"] = fmt.Sprintf("%d MkdirAll calls on names occupied by dangling links, links to directories and loops, judged by a second client's Stat (oracle only)", n)
 }
